@@ -301,6 +301,15 @@ class CompositeFamily(Family):
                                                _only_required_parking_operations=only, **kw)
         removed = 0
         out = []
+        base_before = [(layer_gates(l), layer_parks(l)) for l in base.gate_sequences]
+        lay_before = [(layer_gates(lay.get_gate_sequence_at_index(i)), layer_parks(lay.get_gate_sequence_at_index(i))) for i in range(lay.gate_sequence_count)]
+        first_read = [(layer_gates(l), layer_parks(l)) for l in d.gate_sequences]
+        second_read = [(layer_gates(l), layer_parks(l)) for l in d.gate_sequences]
+        if first_read != second_read:
+            res.fail('C17-composite-unstable', '%s excluding %s %r: reading the layers twice gives different answers' % (name, mode, ex))
+        if [(layer_gates(l), layer_parks(l)) for l in base.gate_sequences] != base_before or \
+                [(layer_gates(lay.get_gate_sequence_at_index(i)), layer_parks(lay.get_gate_sequence_at_index(i))) for i in range(lay.gate_sequence_count)] != lay_before:
+            res.fail('C17-composite-changes-base', '%s excluding %s %r: reading the composite description changed the description / layout it was derived from' % (name, mode, ex))
         for i, layer in enumerate(d.gate_sequences):
             base_layer = base.gate_sequences[i]
             if mode == 'edges':
